@@ -281,3 +281,48 @@ Proof.
   rewrite !lookup_eq_spec by assumption.
   unfold spec_lookup, spec_select, candidates. now rewrite Hl.
 Qed.
+
+(* ---------------------------------------------------------------- latest does not depend on the iteration order *)
+(* memory.go ranges over a Go map; the model folds over a list: any two orders give the same set *)
+Theorem latest_order_independent : forall qp f X X' t,
+  Permutation X X' -> NoDup X -> (forall x, In x X -> query_pred_ok current qp x = true) ->
+  (In t (latest_filter current qp f X) <-> In t (latest_filter current qp f X')).
+Proof.
+  intros qp f X X' t Hp Hnd Hq.
+  assert (Hnd' : NoDup X') by (eapply Permutation_NoDup; eauto).
+  assert (Hq' : forall x, In x X' -> query_pred_ok current qp x = true).
+  { intros x Hx. apply Hq. eapply Permutation_in; [symmetry; exact Hp|exact Hx]. }
+  assert (Hmem : forall x, In x X <-> In x X').
+  { intros x. split; apply Permutation_in; [exact Hp|symmetry; exact Hp]. }
+  rewrite (latest_filter_In qp f X t Hnd Hq), (latest_filter_In qp f X' t Hnd' Hq').
+  rewrite (is_latest_ext f X X' t Hmem). now rewrite (Hmem t).
+Qed.
+
+(* ---------------------------------------------------------------- removed triples are gone from every lookup *)
+Lemma remove_triples_gone : forall ts g t, In t ts -> tget (tkey_of t) (idx (remove_triples ts g)) = None.
+Proof.
+  unfold remove_triples. induction ts as [|a r IH]; intros g t Hin; [destruct Hin|].
+  cbn [fold_left]. destruct Hin as [E|Hin]; [|now apply IH].
+  subst a. destruct (tget (tkey_of t) (idx (fold_left (fun g0 t0 => remove_triple t0 g0) r (remove_triple t g)))) eqn:E; auto.
+  apply (remove_triples_get r (remove_triple t g)) in E. cbn in E.
+  rewrite (aget_adel_eq tkey_eqb) in E. discriminate.
+Qed.
+
+Theorem removed_never_returned : forall U ops h g0 g ts t q lo r,
+  rank_faithful U -> within U ops ->
+  graph_of (run ops) h = Some g0 ->
+  graph_of (run (ops ++ [ORemove h ts])) h = Some g ->
+  In t ts -> In r (results (lookup q lo g)) ->
+  exists t', r = q_proj q t' /\ tget (tkey_of t') (idx g) = Some t' /\ tkey_of t' <> tkey_of t.
+Proof.
+  intros U ops h g0 g ts t q lo r Hf Hw Hg0 Hg Hin Hr.
+  assert (Hw' : within U (ops ++ [ORemove h ts])).
+  { intros o x Ho Hx. apply in_app_iff in Ho. destruct Ho as [Ho|[Ho|[]]]; [eapply Hw; eauto|]. subst o. destruct Hx. }
+  destruct (no_ghosts g q lo r (GInv_reachable _ h g Hg) (rank_inj_reachable U _ h g Hf Hw' Hg) Hr) as [t' [Er [Hs _]]].
+  exists t'. repeat split; auto. intros Ek.
+  assert (Hgone : tget (tkey_of t) (idx g) = None).
+  { unfold run in Hg. rewrite run_from_app in Hg. fold (run ops) in Hg. cbn in Hg. unfold with_graph in Hg.
+    unfold graph_of in Hg0. rewrite Hg0 in Hg. cbn in Hg. unfold graph_of, set_graph in Hg. cbn in Hg.
+    rewrite (aget_aset_eq N.eqb N.eqb_spec) in Hg. inversion Hg. now apply remove_triples_gone. }
+  rewrite Ek in Hs. rewrite Hs in Hgone. discriminate.
+Qed.
